@@ -226,3 +226,37 @@ Qed.
 
 Lemma Forall2_tl {A B} (P : A -> B -> Prop) a l b m : Forall2 P (a :: l) (b :: m) -> Forall2 P l m.
 Proof. intros H. inversion H; subst. assumption. Qed.
+
+(* ---- rm_nth: the reference object's disconnect under an arbitrary choice among identical connections ---- *)
+Lemma rm_nth_0 {A} (p : A -> bool) l : rm_nth p 0 l = rm_first p l.
+Proof. induction l as [|a t IH]; [reflexivity|]. cbn [rm_nth rm_first]. destruct (p a); [reflexivity|]. rewrite IH. reflexivity. Qed.
+
+Lemma count_rm_nth_le {A} (q r : A -> bool) k l : count q (rm_nth r k l) <= count q l.
+Proof.
+  revert k. induction l as [|a t IH]; intros k; [apply le_n|]. cbn [rm_nth]. destruct (r a).
+  - destruct k as [|k']; rewrite ?count_cons; [lia|]. specialize (IH k'). lia.
+  - rewrite !count_cons. specialize (IH k). lia.
+Qed.
+
+Lemma rm_nth_incl {A} (p : A -> bool) k l x : In x (rm_nth p k l) -> In x l.
+Proof.
+  revert k. induction l as [|a t IH]; intros k; [intros []|]. cbn [rm_nth]. destruct (p a).
+  - destruct k as [|k']; [intros H; right; exact H|]. intros [<-|H]; [left; reflexivity|right; eapply IH; exact H].
+  - intros [<-|H]; [left; reflexivity|right; eapply IH; exact H].
+Qed.
+
+(* exactly one matching element goes when the index is in range, the others keep their order *)
+Lemma count_rm_nth_same {A} (p : A -> bool) k l : k < count p l -> count p (rm_nth p k l) = pred (count p l).
+Proof.
+  revert k. induction l as [|a t IH]; intros k Hk; [cbn in Hk; lia|]. cbn [rm_nth]. rewrite count_cons in *. destruct (p a) eqn:Hp.
+  - destruct k as [|k']; [cbn; lia|]. rewrite count_cons, Hp. rewrite IH by lia. lia.
+  - rewrite count_cons, Hp. apply IH. lia.
+Qed.
+
+Lemma filter_rm_nth_other {A} (p r : A -> bool) k l :
+  (forall x, r x = true -> p x = false) -> filter p (rm_nth r k l) = filter p l.
+Proof.
+  intros H. revert k. induction l as [|a t IH]; intros k; [reflexivity|]. cbn [rm_nth filter]. destruct (r a) eqn:Hr.
+  - rewrite (H a Hr). destruct k as [|k']; [reflexivity|]. cbn [filter]. rewrite (H a Hr). apply IH.
+  - cbn [filter]. destruct (p a); rewrite IH; reflexivity.
+Qed.
